@@ -318,6 +318,8 @@ def check(run):
 
 
 def replay(payload):
+    if "replay" not in payload:
+        return replay_unlocated(payload)
     r = payload["replay"]
     case = r["case"]
     res = common.run_impl("c01_impl", [case], procs=1)[0]
@@ -330,4 +332,26 @@ def replay(payload):
         print("VIOLATION property=C01 replay=(given)")
         return 1
     print("no violation on this input")
+    return 0
+
+
+def replay_unlocated(payload):
+    """A replay file written when something no longer checked but no failing input was found: it names the
+    obligation / correspondence; the inputs of the stored disagreements are run through the property oracle."""
+    bad = 0
+    for b in payload.get("no_longer_checks", []):
+        print("no longer checks: %s %s" % (b.get("kind"), b.get("name")))
+        for ent in (b.get("detail") or {}).get("first", []) or []:
+            c = ent.get("case") or {}
+            if "data" not in c:
+                continue
+            case = {"route": "parse" if c.get("op", c.get("route")) == "parse" else "construct", "cid": c["cid"], "data": c["data"],
+                    "allow": c.get("allow", False), "opts": list(ALL_OPTS)}
+            res = common.run_impl("c01_impl", [case], procs=1)[0]
+            print("  %s: oracle failures: %s" % (case["cid"], [f["kind"] for f in res.get("fails", [])][:6]))
+            bad += len(res.get("fails", []))
+    if bad:
+        print("VIOLATION property=C01 replay=(given)")
+        return 1
+    print("no failing input among the stored disagreements (the file records what stopped checking)")
     return 0
